@@ -73,9 +73,9 @@ def malformed_lines(rng, line, tier):
             out.append(('sub[%d:%d]=%r' % (a, b, tok), line[:a] + tok + line[b:]))
     for i in range(len(line) + 1):
         out.append(('trunc%d' % i, line[:i]))
-    flips = range(256) if tier == 'thorough' else [0, 9, 10, 13, 32, 42, 44, 45, 48, 49, 92, 126, 127, 128, 255]
+    flips = range(256) if tier == 'thorough' else [0, 9, 10, 11, 12, 13, 28, 31, 32, 42, 44, 45, 48, 49, 92, 126, 127, 128, 133, 160, 255]
     for i in range(len(line)):
-        for v in (flips if tier == 'thorough' else rng.sample(list(flips), 4)):
+        for v in (flips if tier == 'thorough' else rng.sample(list(flips), 5)):
             if line[i] != v:
                 out.append(('flip%d=%d' % (i, v), line[:i] + bytes([v]) + line[i + 1:]))
     for i in rng.sample(range(len(line) + 1), min(len(line) + 1, 12 if tier == 'quick' else 60)):
